@@ -44,6 +44,14 @@ func Lower(blk *Block) *Lowered {
 	return lw
 }
 
+// LowerWith lowers start -> blk -> end into the graph of an existing builder
+// (several processes of one definitions document share the id counter).
+func LowerWith(b *B, blk *Block) *Lowered {
+	lw := &Lowered{G: b.G, TaskOf: map[string]*Block{}}
+	lw.lowerTop(b, blk)
+	return lw
+}
+
 func (lw *Lowered) lowerTop(b *B, blk *Block) {
 	st := b.Add(KStart)
 	entry, exit := lw.lower(b, blk)
